@@ -68,7 +68,10 @@ def run(ctx):
     if 'A' in ctx.stages:
         pc.stage_a(ctx, [('v2 envelopes+reasons', pc.mc_cfg('pit-A10', 'v2', 2, 2, 'small', 'v2one', R='R_two', E='E_all')),
                          ('legacy envelopes', pc.mc_cfg('pit-A10-l', 'legacy', 2, 1, 'small', 'legacyone', R='R_two', E='E_all'))])
-        fc.stage_a(ctx, [('v2 tokens x replies', fc.mc_cfg('fib-A10', 'v2', 'small', 'reply', 'v2two', ctx.pick(2, 3), 2, 1, reps=ctx.pick(3, 4), E='E_all'))],
+        cfgs10 = [('v2 tokens x replies', fc.mc_cfg('fib-A10', 'v2', 'small', 'reply', 'v2two', 2, 2, 1, reps=ctx.pick(3, 4), E='E_all'))]
+        if not ctx.quick:
+            cfgs10.append(('v2 3 Interests x tokens', fc.mc_cfg('fib-A10b', 'v2', 'small', 'reply', 'v2two', 3, 1, 1, reps=3, E='E_two')))
+        fc.stage_a(ctx, cfgs10,
                    required=('RecvInterest', 'Reply'))
     if 'B' in ctx.stages:
         for front, V in (('v2', 'v2one'), ('legacy', 'legacyone')):
